@@ -80,6 +80,8 @@ pub trait World: 'static {
 
     fn set_poison(seed: Option<u64>);
     fn set_poison_mode(mode: u8);
+    /// never-written stack-vector slots that became visible since the last call (hook)
+    fn take_exposed_slots() -> u64;
     fn poison_words() -> u64;
     fn set_sched_hook(hook: Option<fn(u32)>);
 
@@ -254,6 +256,9 @@ macro_rules! world {
             }
             fn set_poison_mode(mode: u8) {
                 $krate::verif::set_poison_mode(mode)
+            }
+            fn take_exposed_slots() -> u64 {
+                $krate::verif::take_exposed_slots()
             }
             fn poison_words() -> u64 {
                 $krate::verif::words_drawn()
